@@ -1,9 +1,12 @@
 package main
 
 import (
+	"io"
+
 	"encoding/json"
 	"flag"
 	"fmt"
+	ordalog "github.com/orda-io/orda/client/pkg/log"
 	"math/rand"
 	"os"
 	"path/filepath"
@@ -114,6 +117,7 @@ func main() {
 	// the implementation creates an INFO logger per context writing to os.Stderr at creation time
 	if dn, err := os.OpenFile(os.DevNull, os.O_WRONLY, 0); err == nil && os.Getenv("VERIF_LOGS") == "" {
 		os.Stderr = dn
+		ordalog.Logger.Logger.SetOutput(io.Discard) // the package-level logger was created before the redirection
 	}
 	seed := flag.Int64("seed", 1, "PRNG seed")
 	tier := flag.String("tier", "quick", "quick|thorough")
